@@ -520,6 +520,7 @@ fn random_session(r: &mut Rng) -> Vec<Line> {
     let mut lines = vec![];
     let mut ints: Vec<String> = vec![];
     let mut arrs: Vec<String> = vec![];
+    let mut strs: Vec<String> = vec![];
     let mut fresh = 0;
     let mut pending_probe: Option<String> = None;
     for _ in 0..n {
@@ -530,8 +531,31 @@ fn random_session(r: &mut Rng) -> Vec<Line> {
                 ints[r.below(ints.len() as u64) as usize].clone()
             }
         };
-        let k = r.below(33);
+        let k = r.below(37);
         let text = match k {
+            // a global string: written through (successfully, and in ways that must fail and change nothing), read back
+            33 => {
+                fresh += 1;
+                let name = format!("s{}", fresh);
+                let t = format!("stel {} = \"{}\"", name, *r.pick(&["hello", "aé€💖", "z", "tekst met spaties"]));
+                strs.push(name);
+                t
+            }
+            34 if !strs.is_empty() => {
+                let s = &strs[r.below(strs.len() as u64) as usize];
+                match r.below(5) {
+                    0 => format!("{}[{}] = \"x\"", s, r.range(20, 40)),
+                    1 => format!("{}[0] = {}", s, r.range(0, 9)),
+                    2 => format!("{}[ja] = \"x\"", s),
+                    3 => format!("{}[0 - 30] = \"x\"", s),
+                    _ => format!("{}[0] = [\"x\"]", s),
+                }
+            }
+            35 if !strs.is_empty() => format!("{}[0] = \"{}\"", strs[r.below(strs.len() as u64) as usize], *r.pick(&["T", "é", "💖"])),
+            36 if !strs.is_empty() => {
+                let s = &strs[r.below(strs.len() as u64) as usize];
+                format!("[{}, lengte({}), {}[0], {}[-1]]", s, s, s, s)
+            }
             // a whole generated program as one line (every construct of the language, in the global context of the
             // session: its declarations become globals of the session, its blocks open and close scopes there)
             27..=30 => {
